@@ -34,6 +34,9 @@ func TestMain(m *testing.M) {
 	if err := selfCheck(); err != nil {
 		panic("C16 oracle self-check failed: " + err.Error())
 	}
+	if err := teSelfCheck(); err != nil {
+		panic("C16 oracle self-check failed: " + err.Error())
+	}
 	reg := func(kind string, f func(raw json.RawMessage) string) { ev.RegisterReplay(kind, f) }
 	reg("sw", func(raw json.RawMessage) string {
 		var c SWCase
@@ -46,10 +49,7 @@ func TestMain(m *testing.M) {
 	ev.Main(m)
 }
 
-func TestReplay(t *testing.T) {
-	replaying = true
-	ev.Replay(t)
-}
+func TestReplay(t *testing.T) { ev.Replay(t) }
 
 const rule = "tables of exceptional points (infinity as (0,0), G, -G, P, -P, [2]P, endomorphism images, low-order points) and scalars (0, 1, 2, r-1, r, r+1, >r as lazy sums / raw limbs, 2^k, +-lambda, half-size) crossed with operations and the complete-arithmetic option, plus rapid-generated mixes; signatures valid / altered / boundary; hint-adversary strategies on the decomposition hints. Non-trivial: at least one operand in an exceptional class (or result at infinity), or an invalid signature / false pairing equation, or an adversarial strategy. Distinct: SHA-256 of the case JSON."
 
@@ -338,15 +338,18 @@ func TestTable(t *testing.T) {
 			if ev.Tier() == "quick" && ev.N(100, 100) < 100 && i%4 != 0 {
 				continue // VERIF_SCALE development runs
 			}
+			if sig := excludedSW(&c); sig != "" {
+				rec.Discarded("sw-table:excluded shape of open finding " + sig)
+				continue
+			}
 			o := runSW(c)
 			if o.Discard {
 				rec.Discarded("sw-table:" + o.DiscardWhy)
 				continue
 			}
 			if o.Violation != "" {
-				if handled := knownOrViolate(t, rec, "sw", c, o.Violation); handled {
-					continue
-				}
+				p := rec.Violate("sw", c, o.Violation)
+				t.Errorf("VIOLATION %s kind=sw replay=%s: %s", ID, p, trunc(o.Violation, 1200))
 				return
 			}
 			rec.Count("sw", c, o.NonTrivial, append(o.Classes, "source:table")...)
@@ -360,7 +363,11 @@ func swProperty(t *testing.T, curveNames, ops []string, compiledPct, quick, thor
 	g := genSW(curveNames, ops, compiledPct)
 	rec.Check(t, "sw", ev.N(quick, thorough), func(rt *rapid.T) {
 		c := g.Draw(rt, "case")
-		rec.Report(rt, "sw", c, withKnown(rec, "sw", runSW(c), c))
+		if sig := excludedSW(&c); sig != "" {
+			rec.Discarded("sw:excluded shape of open finding " + sig)
+			return
+		}
+		rec.Report(rt, "sw", c, runSW(c))
 	})
 }
 
